@@ -89,7 +89,9 @@ def check_seq(prop, tier, seed, scale=1.0):
         crashes += r["crashes"]
         per_variant[v] = sum(s.get("runs", 0) for s in r["summaries"])
     miri_cov = {}
-    if prop in ("C02", "C13"):
+    if prop in ("C02", "C13") and not any(prop in v.get("props", []) for _, rec in found for v in rec.get("violations", [])):
+        # (skipped when the native batches already reported a violation: the verdict is settled and a
+        # defect that loops would cost every interpreter process its full time limit)
         mfound, miri_cov = miri_seq_tier(prop, tier, seed, scale, "fault" if prop == "C13" else "std")
         found += mfound
     sched_cov = {}
@@ -182,8 +184,10 @@ def check_buf(prop, tier, seed, scale=1.0):
             per_variant[v + ":" + profile] = sum(s.get("runs", 0) for s in r["summaries"])
     # E-miri(buf): the same nests and operations interpreted by Miri (no SimAlloc): out-of-bounds and
     # uninitialised *reads*, invalid pointers and leaks in the Buf / BufMut implementations
-    mfound, miri_cov = miri_seq_tier(prop, tier, seed, scale, specs[0][0], pkg="buf")
-    found += mfound
+    miri_cov = {"note": "skipped: the native batches already reported a violation"}
+    if not any(prop in v.get("props", []) for _, rec in found for v in rec.get("violations", [])):
+        mfound, miri_cov = miri_seq_tier(prop, tier, seed, scale, specs[0][0], pkg="buf")
+        found += mfound
     n_unknown = handle_violations(prop, "buf", found, tier)
     tot = C.merge_summaries(sums)
     wall = time.time() - t0
@@ -338,7 +342,7 @@ def miri_classify(rc, out, err):
     return (["C05"], "miri:failed", m[:400])
 
 
-def miri_seq_run(args, miri_seed, timeout=1500, pkg="seq"):
+def miri_seq_run(args, miri_seed, timeout=400, pkg="seq"):
     env = dict(C.ENV)
     env["MIRIFLAGS"] = "-Zmiri-seed=%d -Zmiri-disable-isolation" % miri_seed
     cmd = ["cargo", "+nightly", "miri", "run", "--offline", "-q", "-p", pkg, "--no-default-features", "--features", "std",
